@@ -11,6 +11,7 @@
      fixd = the last step of _check_signature insists on a verified signature
             (the F16 repair, proposed_fix/C10-1.diff).  All theorems below are
             about fixd = true except C10_before_fix_refuted. *)
+From Coq Require Import Lia.
 From PV Require Import Lib.Base Model.Sigver Model.CertSelect Model.Xmlsec Model.Request Gen.RequestTable
   Proofs.Request_lemmas.
 Open Scope N_scope.
@@ -248,6 +249,90 @@ Proof.
   repeat split; try assumption. exact genuine_covered.
 Qed.
 Print Assumptions C10_witness.
+
+(* (7) NO KIND-SPECIFIC EXCEPTION.  There is one _loads, one _verify and one issue_instant_ok for all eight request
+   kinds (C10_table_is_documented: no request class resolves one of those steps to a definition of its own), and
+   none of them reads the kind-specific optional content of the message - LogoutRequest/@NotOnOrAfter, Reason,
+   SessionIndex; AuthnRequest Conditions (NotBefore / NotOnOrAfter), Subject, ForceAuthn / IsPassive, Scoping; the
+   optional children of the queries and of ManageNameID / NameIDMapping requests ([d_opts], Model/Request.v).
+   (7a) for every kind, binding, configuration and received text: replacing the optional content by ANY other
+   leaves the outcome (exception class / None / handed over) unchanged *)
+Theorem C10_blind_to_optional_content :
+  forall pre fixd c k b w o,
+    parse_request pre fixd c k b (wire_set_opts o w) = res_set_opts o (parse_request pre fixd c k b w).
+Proof. exact blind_to_optional_content. Qed.
+Print Assumptions C10_blind_to_optional_content.
+
+(* (7b) statement (1) in refusal form, over the kind parameter: a request document that is stale / dated ahead /
+   without instant, or addressed elsewhere, or unsigned though signatures are wanted, or of another version, or
+   schema-invalid, or of another root, is handed over by NO entry point, whatever optional content it carries *)
+Theorem C10_no_kind_specific_exception :
+  forall pre c k b w d, must_be_refused c k b d -> parse_request pre true c k b w <> Ok (Some d).
+Proof. exact no_kind_specific_exception. Qed.
+Print Assumptions C10_no_kind_specific_exception.
+
+(* (7c) in particular: a NotOnOrAfter in the future (on a LogoutRequest, or any other dateTime among the optional
+   content of any kind) does not excuse an IssueInstant outside the window *)
+Theorem C10_future_not_on_or_after_does_not_excuse :
+  forall pre c k b w d t name noa,
+    In (name, Some noa) (d_opts d) -> (c_now c < noa)%Z ->
+    d_issue_instant d = Some t -> (t < c_now c - 86400 - c_slack c \/ c_now c + 86400 + c_slack c <= t)%Z ->
+    parse_request pre true c k b w <> Ok (Some d).
+Proof.
+  intros pre c k b w d t name noa _ _ Ht Hout. apply no_kind_specific_exception. left.
+  intros t' Ht' [H1 H2]. rewrite Ht in Ht'. inversion Ht'; subst t'. lia.
+Qed.
+Print Assumptions C10_future_not_on_or_after_does_not_excuse.
+
+(* (8) ONE LONG-LIVED RECEIVER taking in any sequence of messages (induction over the sequence): everything it has
+   handed over at any point was handed over by _parse_request on that message alone - hence satisfies (1)-(3),
+   (7) - and what came before changes nothing: valid requests taken in earlier excuse nothing later *)
+Theorem C10_history :
+  forall pre fixd c ops,
+    Forall (handed_by pre fixd c) (run_history pre fixd c ops []) /\
+    (forall ops1 ops2, ops = ops1 ++ ops2 ->
+       run_history pre fixd c ops [] = run_history pre fixd c ops1 [] ++ run_history pre fixd c ops2 []).
+Proof.
+  intros pre fixd c ops. split.
+  - apply history_invariant. constructor.
+  - intros ops1 ops2 ->. rewrite history_split. apply run_history_app.
+Qed.
+Print Assumptions C10_history.
+
+Theorem C10_history_handed_over_only_if_valid :
+  forall pre c ops k b w d,
+    In ((k, b, w), d) (run_history pre true c ops []) ->
+    In (k, b, w) ops /\ ~ must_be_refused c k b d.
+Proof.
+  intros pre c ops k b w d Hin. split.
+  - exact (history_ops_only pre true c ops k b w d Hin).
+  - intros Hr. destruct (C10_history pre true c ops) as [Hall _].
+    rewrite Forall_forall in Hall. specialize (Hall _ Hin). cbn in Hall.
+    exact (no_kind_specific_exception _ _ _ _ _ _ Hr Hall).
+Qed.
+Print Assumptions C10_history_handed_over_only_if_valid.
+
+(* non-vacuity of (7), (8): a LogoutRequest carrying NotOnOrAfter one hour ahead and a Reason (allowance 60 s) is
+   handed over when issued now; issued 86461 s ago or 86460 s ahead it is not (None); addressed to the SOAP endpoint
+   but sent by POST, and unsigned when signatures are wanted, it is refused; and a receiver that took in the valid
+   one first still refuses the stale one and takes the next valid one *)
+Example C10_logout_witness :
+  let run want d := parse_request true true (w_lcfg want) KLogout BPost (WText (Xml d)) in
+  run false (w_logout (Some w_slo) 0 w_noa_future) = Ok (Some (w_logout (Some w_slo) 0 w_noa_future)) /\
+  run false (w_logout (Some w_slo) (-86461) w_noa_future) = Ok None /\
+  run false (w_logout (Some w_slo) 86460 w_noa_future) = Ok None /\
+  run false (w_logout (Some (s2l "https://idp.example.org/slo/soap")) 0 w_noa_future) = Err (E "OtherError") /\
+  run true (w_logout (Some w_slo) 0 w_noa_future) = Err (E "IncorrectlySigned") /\
+  List.length (run_history true true (w_lcfg false)
+    [(KLogout, BPost, WText (Xml (w_logout (Some w_slo) 0 w_noa_future)));
+     (KLogout, BPost, WText (Xml (w_logout (Some w_slo) (-86461) w_noa_future)));
+     (KLogout, BPost, WText (Xml (w_logout (Some w_slo) 0 [])))] []) = 2%nat.
+Proof.
+  destruct logout_witness as (H1 & H2 & H3 & H4 & H5 & H6).
+  split; [exact H1|]. split; [exact H2|]. split; [exact H3|]. split; [exact H4|]. split; [exact H5|].
+  rewrite H6. reflexivity.
+Qed.
+Print Assumptions C10_logout_witness.
 
 (* GLUE to C01 (Proofs/Glue_xsw.v, docs/Glue.md).  The symbolic documents above are Model/Xmlsec.v's; C01 is proved
    over Model/Xsw.v (signatures with their own ID / Object children, three duplicate-ID policies, Dolev-Yao closure).
